@@ -199,6 +199,8 @@ class Roles:
     def _role_of(self, q, term):
         t = strip(term)
         m = self.roles.get(q, {})
+        if (q, t) in getattr(self, "generic", ()):
+            return None
         if t in m:
             return m[t]
         if head(t) == "call" and head(strip(t[1])) == "glob" and strip(t[1])[1] in NORMALISERS and t[2]:
@@ -214,6 +216,12 @@ class Roles:
     def _set(self, q, key, role):
         m = self.roles.setdefault(q, {})
         if key in m and m[key] != role:
+            from .rules import BASELINE_VOCAB
+            base = BASELINE_VOCAB.get("__functions__")
+            if base is not None and q not in base:
+                # a helper introduced after the rules were validated may serve several quantities (generic utility): its parameter has no single role
+                self.generic = getattr(self, "generic", set()) | {(q, key)}
+                return False
             c = (q, key, m[key], role)
             if c not in self.conflicts:
                 self.conflicts.append(c)
